@@ -17,7 +17,7 @@ def run_mutant(prop, fname, old, new, tier='quick', count=1, quiet=False, env_ex
             return 'nomatch', ''
         s = s.replace(old, new, count)
         open(p, 'w').write(s)
-        env = dict(os.environ, PYG_REPO=tmp)
+        env = dict(os.environ, PYG_REPO=tmp, PYVC_STRICT='1')      # strict: an undecided run exits 2 so that it is told apart from a clean one
         env.update(env_extra or {})
         r = subprocess.run(['python3-vt', os.path.join(ROOT, 'checks', 'run.py'), 'check', prop, '--tier', tier], capture_output=True, text=True, env=env,
                            cwd=ROOT)
